@@ -53,6 +53,7 @@ type c13Read struct {
 type c13Conn struct {
 	ID         int    `json:"conn"`
 	Dialer     int    `json:"dialer"`
+	Family     int    `json:"family"` // 4 / 6: address family of the target this conn was really dialled to
 	Key        int    `json:"key"`
 	Target     string `json:"target"`
 	Plain      bool   `json:"not_a_packet_conn,omitempty"`
@@ -167,7 +168,23 @@ const (
 	c13DialKinds
 )
 
-var c13DialNames = []string{"ok", "refused", "unreachable", "timeout", "canceled", "addrinuse", "eof", "notpacket"}
+// Further members of the "this address family cannot be used" class (the in-call
+// retry path). Kept outside c13DialKinds so that the random scripts of the older
+// workloads keep their distribution.
+const (
+	c13DialUnreachMsg = c13DialKinds + iota // flattened text, as proxy protocol libraries return it
+	c13DialNoSuitable                       // net: "no suitable address found"
+	c13DialNonIPv4                          // net: "non-IPv4 address"
+)
+
+var c13DialNames = []string{"ok", "refused", "unreachable", "timeout", "canceled", "addrinuse", "eof", "notpacket", "unreachable-text", "no-suitable-address", "non-ipv4-address"}
+
+// c13Opt is one scripted routing selection (what GetDialOption returns).
+type c13Opt struct {
+	Dialer  int  `json:"dialer"`
+	Fam     int  `json:"family"`
+	NilType bool `json:"no_network_type,omitempty"` // selection carries no explicit network type: the client's family applies
+}
 
 type c13Outcome struct {
 	Kind      int   `json:"kind"`
@@ -194,10 +211,27 @@ func (d *c13Dialer) DialContext(ctx context.Context, _ string, addr string) (net
 	}
 	k := h.keyOfTarget(addr)
 	o := h.nextOutcome(k)
+	fam := 4
+	if ap, perr := netip.ParseAddrPort(addr); perr == nil && ap.Addr().Is6() {
+		fam = 6
+	}
 	h.mu.Lock()
-	h.dialLog = append(h.dialLog, fmt.Sprintf("s%d key%d dialer%d %s", st, k, d.idx, c13DialNames[o.Kind]))
+	h.dialLog = append(h.dialLog, fmt.Sprintf("s%d key%d dialer%d udp%d %s", st, k, d.idx, fam, c13DialNames[o.Kind]))
+	switch o.Kind {
+	case c13DialUnreachable, c13DialUnreachMsg, c13DialNoSuitable, c13DialNonIPv4:
+		// the routing side learns that this family of this dialer is unusable and
+		// falls back to the other family at the next selection
+		h.famDown[[2]int{d.idx, fam}] = true
+		h.famDown[[2]int{d.idx, 10 - fam}] = false
+	}
 	h.mu.Unlock()
 	switch o.Kind {
+	case c13DialUnreachMsg:
+		return nil, fmt.Errorf("dial udp %s: connect: network is unreachable", addr)
+	case c13DialNoSuitable:
+		return nil, &net.OpError{Op: "dial", Net: "udp", Err: &net.AddrError{Err: "no suitable address found", Addr: addr}}
+	case c13DialNonIPv4:
+		return nil, &net.AddrError{Err: "non-IPv4 address", Addr: addr}
 	case c13DialRefused:
 		return nil, &net.OpError{Op: "dial", Net: "udp", Err: os.NewSyscallError("connect", syscall.ECONNREFUSED)}
 	case c13DialUnreachable:
@@ -211,7 +245,7 @@ func (d *c13Dialer) DialContext(ctx context.Context, _ string, addr string) (net
 	case c13DialEOF:
 		return nil, io.EOF
 	}
-	c := &c13Conn{Dialer: d.idx, Key: k, Target: addr, h: h, DialSt: st,
+	c := &c13Conn{Dialer: d.idx, Family: fam, Key: k, Target: addr, h: h, DialSt: st,
 		reads: make(chan c13Read, 16), closeCh: make(chan struct{}),
 		FailAt: o.FailAt, Short: o.Short, eofOnClose: st%2 == 0}
 	h.mu.Lock()
@@ -249,6 +283,7 @@ type c13Call struct {
 
 type c13Inval struct {
 	Dialer int   `json:"dialer"` // -1: pool-wide (Reset)
+	Family int   `json:"family,omitempty"`
 	S0     int64 `json:"call_stamp"`
 	S1     int64 `json:"ret_stamp"`
 	N      int   `json:"removed"`
@@ -277,6 +312,11 @@ type c13EP struct {
 	keyFixed  []bool
 	fixedGrp  *ob.DialerGroup
 	targets   []string
+	targets6  []string
+	prefFam   []int              // per key: family the routing side selects first (4 / 6)
+	famDown   map[[2]int]bool    // (dialer, family) learnt unusable from a dial error
+	optScript map[int][]c13Opt   // per key scripted selections, consumed in order; then the chooser above applies
+	gets      atomic.Int32
 
 	dialsStarted  atomic.Int32
 	handlerFail   atomic.Int64 // conn id + 1 whose next handler call fails; 0: none
@@ -297,7 +337,7 @@ func (h *c13EP) gate() chan struct{} {
 
 func (h *c13EP) keyOfTarget(addr string) int {
 	for i, t := range h.targets {
-		if t == addr {
+		if t == addr || h.targets6[i] == addr {
 			return i
 		}
 	}
@@ -326,7 +366,7 @@ func c13QuietLogger() *logrus.Logger {
 // dialers (two direct-like, one proxy-backed) and a small overlapping key pool.
 func c13NewEP(nat time.Duration) *c13EP {
 	h := &c13EP{pool: NewUdpEndpointPool(), nat: nat, started: time.Now(),
-		script: map[int][]c13Outcome{}, optFail: map[int][]int{}}
+		script: map[int][]c13Outcome{}, optFail: map[int][]int{}, famDown: map[[2]int]bool{}, optScript: map[int][]c13Opt{}}
 	lg := c13QuietLogger()
 	mk := func(i int, prop *componentdialer.Property) *componentdialer.Dialer {
 		return componentdialer.NewDialer(&c13Dialer{h: h, idx: i},
@@ -353,6 +393,8 @@ func c13NewEP(nat time.Duration) *c13EP {
 	h.fixedGrp = newTestFixedOutboundGroup(h.dialers[1])
 	for i := range h.keys {
 		h.targets = append(h.targets, fmt.Sprintf("203.0.113.%d:443", 10+i))
+		h.targets6 = append(h.targets6, fmt.Sprintf("[2001:db8:13::%x]:443", 10+i))
+		h.prefFam = append(h.prefFam, 4)
 	}
 	return h
 }
@@ -374,6 +416,15 @@ func (h *c13EP) opts(k, gen int) *UdpEndpointOptions {
 				f = l[0]
 				h.optFail[k] = l[1:]
 			}
+			sel := c13Opt{Dialer: h.keyDialer[k], Fam: h.prefFam[k]}
+			if f == 0 {
+				if l := h.optScript[k]; len(l) > 0 {
+					sel = l[0]
+					h.optScript[k] = l[1:]
+				} else if h.famDown[[2]int{sel.Dialer, sel.Fam}] {
+					sel.Fam = 10 - sel.Fam
+				}
+			}
 			h.mu.Unlock()
 			switch f {
 			case 1:
@@ -382,12 +433,20 @@ func (h *c13EP) opts(k, gen int) *UdpEndpointOptions {
 				return nil, fmt.Errorf("c13: %w", ob.ErrNoAliveDialer)
 			}
 			do := &DialOption{
-				Dialer:  h.dialers[h.keyDialer[k]],
+				Dialer:  h.dialers[sel.Dialer],
 				Network: "udp",
 				Target:  h.targets[k],
 				NetworkType: &componentdialer.NetworkType{
 					L4Proto: consts.L4ProtoStr_UDP, IpVersion: consts.IpVersionStr_4, IsDns: false,
 				},
+			}
+			switch {
+			case sel.NilType:
+				// no explicit network type: the client's own family (all client sources are IPv4) is what is dialled
+				do.NetworkType = nil
+			case sel.Fam == 6:
+				do.Target = h.targets6[k]
+				do.NetworkType.IpVersion = consts.IpVersionStr_6
 			}
 			if h.keyFixed[k] {
 				do.Outbound = h.fixedGrp
@@ -482,16 +541,57 @@ func (h *c13EP) injectRead(conn *c13Conn, rd c13Read, kills bool) {
 	}
 }
 
-func (h *c13EP) invalidate(d int) {
-	iv := &c13Inval{Dialer: d}
+func (h *c13EP) invalidate(d int) { h.invalidateFam(d, 4) }
+
+// invalidateFam: the health of (dialer d, UDP over IPv<fam>) went not-alive.
+func (h *c13EP) invalidateFam(d, fam int) {
+	iv := &c13Inval{Dialer: d, Family: fam}
+	ipv := consts.IpVersionStr_4
+	if fam == 6 {
+		ipv = consts.IpVersionStr_6
+	}
 	iv.S0 = h.clock.Add(1)
 	iv.N = h.pool.InvalidateDialerNetworkType(h.dialers[d], &componentdialer.NetworkType{
-		L4Proto: consts.L4ProtoStr_UDP, IpVersion: consts.IpVersionStr_4, IsDns: false})
+		L4Proto: consts.L4ProtoStr_UDP, IpVersion: ipv, IsDns: false})
 	iv.S1 = h.clock.Add(1)
 	h.mu.Lock()
 	h.invs = append(h.invs, iv)
 	h.mu.Unlock()
-	h.logOp("invalidate dialer%d removed=%d", d, iv.N)
+	h.logOp("invalidate dialer%d udp%d removed=%d", d, fam, iv.N)
+}
+
+// get is the read-only lookup (UdpEndpointPool.Get); an endpoint it returns has
+// been handed out just like one returned by GetOrCreate.
+func (h *c13EP) get(k int, who string) *c13Call {
+	c := &c13Call{Who: who + "/Get", Key: k, Conn: -1}
+	c.S0, c.t0 = h.clock.Add(1), time.Now()
+	ue, ok := h.pool.Get(h.keys[k])
+	c.t1, c.S1 = time.Now(), h.clock.Add(1)
+	h.gets.Add(1)
+	if ok && ue != nil {
+		c.ue = ue
+		c.conn = c13ConnOf(ue)
+		if c.conn != nil {
+			c.Conn = c.conn.ID
+		}
+		c.Marker = ue.failed.Load() || ue.conn == nil
+	}
+	h.mu.Lock()
+	c.Seq = len(h.calls)
+	h.calls = append(h.calls, c)
+	h.mu.Unlock()
+	return c
+}
+
+// remove is a packet handler's clean-up: UdpEndpointPool.Remove(key, the endpoint
+// this handler was using), which may no longer be the pooled one.
+func (h *c13EP) remove(k int, c *c13Call) {
+	if c == nil || c.ue == nil || c.conn == nil {
+		return
+	}
+	c13MinStamp(&c.conn.killBegin, h.clock.Add(1))
+	err := h.pool.Remove(h.keys[k], c.ue)
+	h.logOp("pool.Remove(key%d, conn%d) err=%v", k, c.conn.ID, err)
 }
 
 func (h *c13EP) stampAll() {
@@ -533,7 +633,7 @@ func (h *c13EP) witness(extra map[string]any) map[string]any {
 }
 
 func c13ConnInfo(c *c13Conn) map[string]any {
-	return map[string]any{"conn": c.ID, "key": c.Key, "dialer": c.Dialer, "dial_stamp": c.DialSt, "closes": c.closes.Load(),
+	return map[string]any{"conn": c.ID, "key": c.Key, "dialer": c.Dialer, "family": c.Family, "dial_stamp": c.DialSt, "closes": c.closes.Load(),
 		"close_stamp": c.closeStamp.Load(), "kill_begin_stamp": c.killBegin.Load(), "first_traffic_stamp": c.firstTraffic.Load(),
 		"sent_done_stamp": c.sentDone.Load(), "dead_seen_stamp": c.deadSeen.Load(), "plain": c.Plain}
 }
@@ -571,8 +671,8 @@ func (h *c13EP) checkHistory(identityOK bool) []c13Verdict {
 		// stale generation: invalidated before carrying traffic, existed before the invalidation
 		if !h.keyFixed[c.Key] {
 			for _, iv := range invs {
-				if iv.Dialer != c.conn.Dialer || c.S0 <= iv.S1 {
-					continue
+				if iv.Dialer != c.conn.Dialer || iv.Family != c.conn.Family || c.S0 <= iv.S1 {
+					continue // only a health change of the (dialer, family) it was really dialled with invalidates it
 				}
 				fr, ok := firstRet[c.conn]
 				if !ok || fr >= iv.S0 {
@@ -1016,6 +1116,7 @@ func c13EndpointMixed(m *vk.Monitor) {
 		nkeys := 1 + rng.IntN(len(h.keys))
 		// dial scripts
 		for k := 0; k < nkeys; k++ {
+			h.prefFam[k] = 4 + 2*((round+k)%2) // which family the routing side tries first
 			for i := 0; i < 6; i++ {
 				o := c13Outcome{Kind: c13DialOK}
 				switch x := rng.IntN(10); {
@@ -1085,6 +1186,11 @@ func c13EndpointMixed(m *vk.Monitor) {
 					h.observeDead(lc)
 					switch op.Kind {
 					case c13OpGoc, c13OpGocWrite, c13OpFailWrite, c13OpTrack:
+						if op.Kind == c13OpGoc && op.Arg == 2 {
+							if gc := h.get(op.Key, who); gc.conn != nil {
+								last[op.Key] = gc
+							}
+						}
 						c := h.goc(op.Key, op.Gen, who)
 						if c.Err != "" || c.conn == nil {
 							continue
@@ -1096,6 +1202,16 @@ func c13EndpointMixed(m *vk.Monitor) {
 						case c13OpFailWrite:
 							c.conn.failNow.Store(true)
 							_ = h.write(c)
+							// the packet handler's clean-up after a failed write; with arg 2 it is done with
+							// the handle this goroutine held BEFORE (a late clean-up by a stale holder)
+							switch {
+							case op.Arg == 1 || (op.Arg == 2 && lc == nil):
+								h.remove(op.Key, c)
+								m.Count("b_mixed_remove_after_failed_write", 1)
+							case op.Arg == 2:
+								h.remove(op.Key, lc)
+								m.Count("b_mixed_remove_with_earlier_handle", 1)
+							}
 						case c13OpTrack:
 							src, dst := h.keys[op.Key].Src, tupleDst[op.Arg%len(tupleDst)]
 							f := bpfTuplesKeyFromAddrPorts(src, dst, uint8(syscall.IPPROTO_UDP))
@@ -1142,7 +1258,7 @@ func c13EndpointMixed(m *vk.Monitor) {
 							lc.conn.tdOnce.Do(func() { close(lc.conn.td) })
 						}
 					case c13OpInvalidate:
-						h.invalidate(op.Arg % len(h.dialers))
+						h.invalidateFam(op.Arg%len(h.dialers), 4+2*op.Gen)
 					case c13OpReset:
 						h.reset()
 					}
@@ -1212,6 +1328,7 @@ func c13EndpointMixed(m *vk.Monitor) {
 		m.Count("b_mixed_calls", int64(len(h.calls)))
 		m.Count("b_mixed_conns_dialled", int64(len(h.conns)))
 		m.Count("b_mixed_invalidations", int64(len(h.invs)))
+		m.Count("b_mixed_get_lookups", int64(h.gets.Load()))
 		m.Count("b_calls_ok", int64(outc["new"]+outc["reuse"]))
 		m.Count("b_calls_created", int64(outc["new"]))
 		m.Count("b_calls_reused", int64(outc["reuse"]))
@@ -1223,6 +1340,9 @@ func c13EndpointMixed(m *vk.Monitor) {
 			}
 			if c.Plain {
 				m.Count("b_non_packet_conns", 1)
+			}
+			if c.Family != h.prefFam[c.Key] {
+				m.Count("b_mixed_conns_dialled_over_fallback_family", 1)
 			}
 		}
 		if profile == 2 {
@@ -1296,7 +1416,7 @@ func c13EndpointDeadWindow(m *vk.Monitor) {
 			case 1:
 				h.injectRead(c0.conn, c13Read{err: io.ErrUnexpectedEOF}, true)
 			case 2:
-				h.invalidate(c0.conn.Dialer)
+				h.invalidateFam(c0.conn.Dialer, c0.conn.Family)
 			}
 		}()
 		if how == 1 {
@@ -1783,7 +1903,7 @@ func c13GenerationsSequential(m *vk.Monitor) {
 					_ = h.pool.Remove(h.keys[k], c.ue)
 					desc = fmt.Sprintf("pool.Remove(conn%d)", c.Conn)
 				default:
-					h.invalidate(c.conn.Dialer)
+					h.invalidateFam(c.conn.Dialer, c.conn.Family)
 					desc = fmt.Sprintf("Invalidate(dialer%d)", c.conn.Dialer)
 					// closes every endpoint of that dialer that never carried traffic
 				}
